@@ -422,7 +422,7 @@ def check_c09(graph, result):
             return {"what": "physical line longer than 80 characters incl. newline", "length": len(ln), "line": ln, "input": _graph_json(graph)}
     # observability: logical line lengths, wraps per logical line, character classes around each wrap
     if ctx is not None:
-        logical, wraps = "", 0
+        logical, wraps, in_bond_block = "", 0, False
         for k, ln in enumerate(lines[4:-1], start=4):
             body = ln[7:]
             if ln.endswith("-") and k + 1 < len(lines) - 1 and lines[k + 1].startswith("M  V30 "):
@@ -436,6 +436,12 @@ def check_c09(graph, result):
                 wraps += 1
                 continue
             logical += body
+            if wraps and in_bond_block:
+                ctx.count("wrapped_bond_lines")
+            if body.split() == ["BEGIN", "BOND"]:
+                in_bond_block = True
+            elif body.split() == ["END", "BOND"]:
+                in_bond_block = False
             if len(logical) >= 66:
                 ctx.seen("logical_line_len", len(logical))
             ctx.seen("wraps_per_logical_line", min(wraps, 3))
